@@ -91,7 +91,7 @@ CHECKS = {
         tests=[
             dict(name="TestC05Clean", quick=dict(checks=250, shards=8, timeout=900), thorough=dict(checks=12000, shards=11, timeout=3400)),
             dict(name="TestC05Wide", quick=dict(checks=250, shards=8, timeout=900), thorough=dict(checks=12000, shards=5, timeout=3400)),
-            dict(name="TestC05Scale", quick=dict(checks=2, shards=6, timeout=900), thorough=dict(checks=40, shards=8, timeout=3400)),
+            dict(name="TestC05Scale", quick=dict(checks=2, shards=6, timeout=900), thorough=dict(checks=15, shards=8, timeout=3400)),
         ]),
     "C10": dict(
         pkg="c10", level="exploration",
